@@ -109,6 +109,7 @@ class Run:
             hooks["onLeave_nobase"] = reenter
         self.reenter_errors = []
         self.retries = []
+        self.keep_subs = []
         self.w = SessionWorld(serializer=c["ser"], hooks=hooks)
         self.s = self.w.session
         self.M = self.w.message
@@ -367,10 +368,12 @@ class Run:
         new = self.w.t.sent[n_sent:]
         rid = new[0].request if new else None
         rec = {"kind": kind, "t": t, "rid": rid, "answered": False}
+        if kind == "unsubscribe" and rid is None and t.done and t.ok:
+            rec["answered"] = True      # other handlers remain on that subscription id: removed locally, no request went to the router
         self.reqs.append(rec)
         if answer and rid is not None:
             self.rid += 1
-            reply = {"call": lambda: M.Result(rid, args=[1]), "publish": lambda: M.Published(rid, self.rid), "subscribe": lambda: M.Subscribed(rid, self.rid),
+            reply = {"call": lambda: M.Result(rid, args=[1]), "publish": lambda: M.Published(rid, self.rid), "subscribe": lambda: M.Subscribed(rid, self.shared_sid()),
                      "register": lambda: M.Registered(rid, self.rid), "unsubscribe": lambda: M.Unsubscribed(rid), "unregister": lambda: M.Unregistered(rid)}[kind]()
             err = self.w.feed(reply)
             if err is not None:
@@ -378,8 +381,16 @@ class Run:
             rec["answered"] = True
             if kind == "subscribe":
                 self.subs.append(self.rid)
+                if rec["t"].done and rec["t"].ok:
+                    self.keep_subs.append(rec["t"].value)
             if kind == "register":
                 self.regs.append(self.rid)
+
+    def shared_sid(self):
+        """all subscriptions of a history are to the same topic: a router gives them the same subscription id"""
+        if not hasattr(self, "_sid"):
+            self._sid = self.rid
+        return self._sid
 
     def sub_objs(self):
         out = []
@@ -452,6 +463,17 @@ class Run:
                 self.fail("disconnect-not-fired", repr(ev))
             self.check_requests_failed("after-transport-gone")
             self.w.settle()
+            # handlers still attached when the session ended (several may share one subscription id): removing any of them is an API call made afterwards
+            for k_, sub in enumerate([x for x in self.keep_subs if getattr(x, "active", False)][:3]):
+                try:
+                    r = self.w.call(lambda sub=sub: sub.unsubscribe())
+                    self.fail("api-after-end-did-not-raise|unsubscribe", "handler #%d of %d on subscription %r: returned %r" % (k_, len(self.keep_subs), sub.id, r))
+                except Violation:
+                    raise
+                except TransportLost:
+                    pass
+                except Exception as e:
+                    self.fail("api-after-end-raised-other|unsubscribe|" + exc_key(e), repr(e))
             for t in self.retries:
                 if not t.done:
                     self.fail("request-issued-while-session-ends-left-pending", "a call issued from the errback of a request that was failed at session end never completes")
